@@ -28,8 +28,8 @@ func init() {
 	}
 	register(
 		custom("bgCtxAssigns", "BatchFunc", bgCtxAssigns),
-		custom("bgCancelUses", "BatchFunc", func(c *Ctx, s *Site) (string, error) { return identUses(c, s, "bgCancel") }),
-		custom("bgCtxUses", "BatchFunc", func(c *Ctx, s *Site) (string, error) { return identUses(c, s, "bgCtx") }),
+		custom("bgCancelUses", "BatchFunc", func(c *Ctx, s *Site) (string, error) { return batchIdentUses(c, s, "bgCancel") }),
+		custom("bgCtxUses", "BatchFunc", func(c *Ctx, s *Site) (string, error) { return batchIdentUses(c, s, "bgCtx") }),
 		custom("srcNextCtxArg", "BatchFunc", srcNextCtxArg),
 		// Batch forwards s and maxWait unchanged
 		custom("batchCallArgs", "Batch", batchCallArgs),
@@ -133,12 +133,12 @@ func bgCtxAssigns(c *Ctx, s *Site) (string, error) {
 	return b.String(), nil
 }
 
-// identUses lists every occurrence of an identifier with the given name in the package `stream`
+// batchIdentUses lists every occurrence of an identifier with the given name in the package `stream`
 // (variables, struct fields, selectors — anything spelled that way), in source order, as
 // "<enclosing function or type>: <smallest enclosing statement / field / key-value, on one line>".
 // Function literals are named by their position: `BatchFunc.func0` is the first function literal of
 // BatchFunc, `BatchFunc.func1.func2` the third literal inside the second.
-func identUses(c *Ctx, s *Site, name string) (string, error) {
+func batchIdentUses(c *Ctx, s *Site, name string) (string, error) {
 	files, err := c.files("stream")
 	if err != nil {
 		return "", err
